@@ -203,6 +203,16 @@ def replay_loading(ctx: Ctx, rule: str) -> None:
     ok = n_raise["missing"] >= 1 and n_raise["notests"] >= 1
     adds = [s for s in ast.walk(fn.node) if isinstance(s, ast.AugAssign) and ast.unparse(s.target) == "self.previous_results"]
     ok = ok and len(adds) == 1
+    # the collected results only ever grow: every test detail of every listed job is kept
+    from ..kinds import attribute_stores, owner_rule
+
+    writes = list(attribute_stores(ctx.repo, "previous_results", ("plugins/", "cartgraph/", "intertest_setup.py")))
+    shrinking = [(f, n, how) for f, n, how in writes if not (how == "augassign" or (f is not None and f.name == "__init__"))]
+    loop = next((l for l in ast.walk(fn.node) if isinstance(l, ast.For) and ast.unparse(l.iter) == "data['tests']"), None)
+    unconditional = loop is not None and any(a is x for a in adds for x in loop.body)
+    ctx.record(rule + "k", "OWNER", fref, "previous results are only ever appended (every test result of every replayed job is kept, unconditionally)",
+               not shrinking and unconditional, {"writes": [f"{f.ref if f else None}: {how}" for f, n, how in writes]},
+               "" if not shrinking and unconditional else "results of replayed jobs can be dropped or replaced: an acceptable previous result may get lost and the test be executed again")
     ctx.record(rule, "TABLE", fref, "replay job without results.json -> RuntimeError; results without 'tests' -> RuntimeError; else every test detail is kept",
                ok, n_raise, "" if ok else "a missing or invalid previous job result file is silently ignored")
     callers = [c for f in ctx.repo.all_functions() for c in calls_in(f.node) if call_name(c) == "results_from_previous_jobs"]
@@ -261,6 +271,8 @@ MUTANTS = [
      "            shared_status &= STATUSES_MAPPING[test[\"status\"]]", "4"),
     ("verdict-all-instead-of-any", RUNNER, "            shared_status &= any(\n                STATUSES_MAPPING", "            shared_status &= all(\n                STATUSES_MAPPING", "4"),
     ("missing-replay-ignored", RUNNER, "                raise RuntimeError(\n                    \"Cannot find replay job results file %s\" % replay_results\n                )", "                continue", "5"),
+    ("only-last-status", NODE, "        rerun_statuses_violated = {*test_statuses} - {*rerun_status}", "        rerun_statuses_violated = {*test_statuses[-1:]} - {*rerun_status}", "1"),
+    ("replay-dedupe", RUNNER, "                    self.previous_results += [test_details]", "                    self.previous_results = [r for r in self.previous_results if r[\"name\"] != test_details[\"name\"]]\n                    self.previous_results += [test_details]", "5k"),
     ("stop-status-ignored", NODE, "        stop_statuses_found = {*stop_status} & {*test_statuses}\n        if len(stop_statuses_found) > 0:", "        stop_statuses_found = {*stop_status} & {*test_statuses}\n        if len(stop_statuses_found) > 1:", "1"),
     ("negative-tries-accepted", NODE, "        if max_tries < 0:\n            raise ValueError(\"Number of max_tries cannot be less than zero\")\n", "", "1"),
     ("replay-default-tries", NODE, "\"max_tries\", 2 if self.params.get(\"replay\") else 1", "\"max_tries\", 1", "1d"),
